@@ -20,7 +20,7 @@ struct Ctx18 {
   Ctx18() {
     auto x1 = m.Emplace(CstType::base); m.Emplace(CstType::constant);
     auto s1 = m.Emplace(CstType::structured, "ℬ(X1×X1)");
-    m.Emplace(CstType::function, "[a∈ℬ(X1)] {a}"); m.Emplace(CstType::predicate, "[a∈ℬ(X1)] a=X1"); m.Emplace(CstType::axiom, "X1=X1");
+    m.Emplace(CstType::function, "[a∈ℬ(X1)] {a}"); m.Emplace(CstType::function, "[a∈ℬ(R1)] ℬ(a)\\{a}"); m.Emplace(CstType::predicate, "[a∈ℬ(X1)] a=X1"); m.Emplace(CstType::axiom, "X1=X1");
     for (int i = 0; i < 2; ++i) m.Values().AddBasicElement(x1, "x" + std::to_string(i));
     (void)m.Values().SetStructureData(s1, object::Factory::Set({ object::Factory::TupleV({ 1, 2 }), object::Factory::TupleV({ 2, 2 }) }));
   }
@@ -70,9 +70,9 @@ static void Handle(const json& c, vh::Report& r) {
   Parser parser; auto auditor = C().m.RSLang().MakeAuditor(); auto interp = C().MakeInterp();
   const size_t n = c["seq"].size();
   for (size_t k = 0; k < n; ++k) {
-    const auto& in = c["seq"][k]; const std::string text = Text(in); const Syntax syn = in["math"].get<bool>() ? Syntax::MATH : Syntax::ASCII;
+    const auto& in = c["seq"][k]; const std::string text = Text(in); const Syntax syn = in.value("auto", false) ? Syntax::UNDEF : in["math"].get<bool>() ? Syntax::MATH : Syntax::ASCII;
     const json rp = ObserveParser(parser, text, syn), ra = ObserveAuditor(*auditor, text, syn), ri = ObserveInterp(*interp, text, syn);
-    const json conv = SafeStr(ConvertTo(text, syn == Syntax::MATH ? Syntax::ASCII : Syntax::MATH));
+    const json conv = SafeStr(ConvertTo(text, in["math"].get<bool>() ? Syntax::ASCII : Syntax::MATH));
     if (k + 1 < n) continue;                      // every prefix is itself an enumerated sequence
     Parser fp; auto fa = C().m.RSLang().MakeAuditor(); auto fi = C().MakeInterp();
     const json fpo = ObserveParser(fp, text, syn), fao = ObserveAuditor(*fa, text, syn), fio = ObserveInterp(*fi, text, syn);
